@@ -577,7 +577,7 @@ class C16(Prop):
     id = 'C16'
     title = 'Context-free tx and block checks accept exactly rule-conforming objects'
     lean_targets = ['BtcVerif.Props.C16']
-    table_groups = ['Chain', 'Limits']
+    table_groups = ['ChainPow', 'Limits']
     theorems = ['BtcVerif.C16.' + t for t in (
         'sigops_eq_spec', 'tx_sigops_eq_spec', 'checkTx_iff', 'checkTx_reject_is_validation', 'outpoint_key_inj',
         'checkHeader_iff', 'commitment_index_last', 'checkBlock_iff', 'reject_is_validation', 'chain_limits')]
